@@ -92,9 +92,11 @@ PROPS = {
              "accepted = documented (both directions); the documented illegal combinations, two call types on one method and per_node_arg on an ordered RPC are rejected; the stub is the one of the declared call type; "
              "quorum-function entry and per-node wiring follow the declaration; services with distinct method names get distinct stub declarations. Tie (Tie/C16.lean): the table obtained on every run by executing "
              "the real plugin, built from the tree, on all 1 024 single-method services (3+ runs each) is proved row by row (decide +kernel) to equal the model: outcome / diagnostic class, byte-identical output, "
-             "stub list, no duplicate declaration, handler shape, QF entry, per-node wiring, method strings. Behavioural: every accepted row and N random multi-method services are compiled together with protoc-gen-go output.",
-        note="Trusted: Lean kernel; gentool gr (descriptor synthesis, go/ast extraction of the stub facts, normaliser); 'compiles' is tested with go build, not proved; the generator's behaviour on services is the per-method "
-             "behaviour (templates range over methods) plus name clashes with the static code, which are known findings.",
+             "stub list, no duplicate declaration, handler shape, QF entry, per-node wiring, method strings (the row's method has a proto name, foo_bar, that differs from its Go name); a second table, of plugin invocations with two "
+             "files whose services have a method of the same name (an accepted row first, then every rejected row and a sample of accepted ones), is proved to show the model's decision about the second file alone, with "
+             "byte-identical output (pairs_is_model, pairs_cover_rejected). Behavioural: every accepted row and N random multi-method services are compiled together with protoc-gen-go output.",
+        note="Trusted: Lean kernel; gentool gr (descriptor synthesis, go/ast extraction of the stub facts, normaliser); 'compiles' is tested with go build, not proved; that the generator's behaviour on a request is its per-method "
+             "behaviour is checked for two-file requests by the pairs table, and for multi-method services by compilation only; name clashes with the static code are known findings.",
         technique="Lean 4 theorems over a hand-written decision model; tie = exhaustive table regenerated by executing the real plugin over the whole option lattice, compared with the model by kernel evaluation; go build of emitted packages",
     ),
     "C17": dict(
